@@ -308,8 +308,10 @@ Fixpoint pass_d (answer : Z -> outcome) (ll : Z -> bool) (fuel : nat) (c : cands
    forbids another one) — the call then returns nil; the two give-up exits: with a candidate left (deadline)
    nothing is resurrected, with nobody left the seeds set aside are resurrected (live ++ dead, as the code
    appends); all retries go through `retry`. A retry after a leaderless answer re-enters with the candidate
-   lists as they are — the live seeds stay — and with the brokers [adv] the applied response advertised. *)
-Fixpoint refresh_d (answer : Z -> outcome) (ll : Z -> bool) (adv : list Z) (attempts : nat) (c : cands)
+   lists as they are — the live seeds stay — and with the brokers the applied response advertised, in the order
+   [adv a] in which `any` meets them on the re-entry with [a] retries left (client.brokers is a Go map: every
+   re-entry iterates it afresh, so the order is chosen anew each time). *)
+Fixpoint refresh_d (answer : Z -> outcome) (ll : Z -> bool) (adv : nat -> list Z) (attempts : nat) (c : cands)
          (tried : list Z) (dl : list bool) : cands * rresult * list Z * list bool :=
   let '(c1, st, tr, dl1) := pass_d answer ll (S (size c)) c tried dl in
   match st with
@@ -320,7 +322,7 @@ Fixpoint refresh_d (answer : Z -> outcome) (ll : Z -> bool) (adv : list Z) (atte
     | S a =>
       let '(past, dl2) := pop_dl dl1 in
       if past then (c1, RSuccess b, tr, dl2)
-      else refresh_d answer ll adv a {| seeds := seeds c1; dead := dead c1; known := adv |} tr dl2
+      else refresh_d answer ll adv a {| seeds := seeds c1; dead := dead c1; known := adv a |} tr dl2
     end
   | _ =>
     let c2 := match st with PDeadline => c1 | _ => resurrect c1 end in
